@@ -98,6 +98,11 @@ var matchers = map[string]func(v *Violation, p map[string]interface{}) bool{
 		if (v.Phase != "crash" && v.Phase != "pcrash") || v.Attr["ext_lost"] != "true" || v.Attr["len_mode"] != "follow" {
 			return false
 		}
+		// the finding is about reading the crash image as it is; the same message after a successful recovery and
+		// further saves (the usability steps) is something else
+		if !strings.Contains(v.Class, "/open/error:") && !strings.Contains(v.Class, "/read/error:") && !strings.Contains(v.Class, "/verify/error:") {
+			return false
+		}
 		return strings.Contains(v.Err, "max entry size limit exceeded")
 	},
 }
